@@ -13,10 +13,12 @@ package main
 
 import (
 	"fmt"
+	"sort"
 	"time"
 
 	"github.com/jamespfennell/gtfs"
 	gtfsrt "github.com/jamespfennell/gtfs/proto"
+	"google.golang.org/protobuf/proto"
 )
 
 var (
@@ -116,7 +118,7 @@ func genStopTimeUpdates(c *Ctx, p string, salt int, rich bool) []*gtfsrt.TripUpd
 		u.Arrival = genEvent(c, q+"arrival.", s*2, rich, rich)
 		u.Departure = genEvent(c, q+"departure.", s*2+1, rich, rich)
 		if k := optIdx(c, q+"schedule_relationship", rich, 3); k >= 0 {
-			v := []gtfsrt.TripUpdate_StopTimeUpdate_ScheduleRelationship{gtfsrt.TripUpdate_StopTimeUpdate_SKIPPED, gtfsrt.TripUpdate_StopTimeUpdate_SCHEDULED, gtfsrt.TripUpdate_StopTimeUpdate_NO_DATA}[k]
+			v := []gtfsrt.TripUpdate_StopTimeUpdate_ScheduleRelationship{gtfsrt.TripUpdate_StopTimeUpdate_SKIPPED, gtfsrt.TripUpdate_StopTimeUpdate_SCHEDULED, gtfsrt.TripUpdate_StopTimeUpdate_NO_DATA, gtfsrt.TripUpdate_StopTimeUpdate_UNSCHEDULED}[k]
 			u.ScheduleRelationship = &v
 		}
 		out = append(out, u)
@@ -150,8 +152,9 @@ func genVehiclePosition(c *Ctx, p string, salt int, rich bool) *gtfsrt.VehiclePo
 		v := []gtfsrt.VehiclePosition_CongestionLevel{gtfsrt.VehiclePosition_CONGESTION, gtfsrt.VehiclePosition_UNKNOWN_CONGESTION_LEVEL, gtfsrt.VehiclePosition_RUNNING_SMOOTHLY, gtfsrt.VehiclePosition_STOP_AND_GO, gtfsrt.VehiclePosition_SEVERE_CONGESTION}[k]
 		vp.CongestionLevel = &v
 	}
-	if k := optIdx(c, p+"occupancy_status", rich, 4); k >= 0 {
-		v := []gtfsrt.VehiclePosition_OccupancyStatus{gtfsrt.VehiclePosition_FEW_SEATS_AVAILABLE, gtfsrt.VehiclePosition_EMPTY, gtfsrt.VehiclePosition_FULL, gtfsrt.VehiclePosition_NOT_BOARDABLE}[k]
+	occ := enumValues(gtfsrt.VehiclePosition_OccupancyStatus_name, int32(gtfsrt.VehiclePosition_FEW_SEATS_AVAILABLE))
+	if k := optIdx(c, p+"occupancy_status", rich, len(occ)); k >= 0 {
+		v := gtfsrt.VehiclePosition_OccupancyStatus(occ[k])
 		vp.OccupancyStatus = &v
 	}
 	vp.OccupancyPercentage = optU32(c, p+"occupancy_percentage", rich, uint32(40+salt), 0, 250)
@@ -209,12 +212,14 @@ func genSimpleAlert(c *Ctx, p string, rich bool) *gtfsrt.Alert {
 		}
 		a.InformedEntity = append(a.InformedEntity, e)
 	}
-	if k := optIdx(c, p+"cause", rich, 4); k >= 0 {
-		v := []gtfsrt.Alert_Cause{gtfsrt.Alert_STRIKE, gtfsrt.Alert_UNKNOWN_CAUSE, gtfsrt.Alert_MEDICAL_EMERGENCY, gtfsrt.Alert_OTHER_CAUSE}[k]
+	causes := enumValues(gtfsrt.Alert_Cause_name, int32(gtfsrt.Alert_STRIKE))
+	if k := optIdx(c, p+"cause", rich, len(causes)); k >= 0 {
+		v := gtfsrt.Alert_Cause(causes[k])
 		a.Cause = &v
 	}
-	if k := optIdx(c, p+"effect", rich, 4); k >= 0 {
-		v := []gtfsrt.Alert_Effect{gtfsrt.Alert_DETOUR, gtfsrt.Alert_UNKNOWN_EFFECT, gtfsrt.Alert_NO_SERVICE, gtfsrt.Alert_ACCESSIBILITY_ISSUE}[k]
+	effects := enumValues(gtfsrt.Alert_Effect_name, int32(gtfsrt.Alert_DETOUR))
+	if k := optIdx(c, p+"effect", rich, len(effects)); k >= 0 {
+		v := gtfsrt.Alert_Effect(effects[k])
 		a.Effect = &v
 	}
 	a.Url = genTranslated(c, p+"url.", rich, "http://example.com/a")
@@ -305,6 +310,10 @@ func genC02(c *Ctx, rich bool) c02Msg {
 func c02Harness(rich bool) Harness {
 	return func(c *Ctx) {
 		g := genC02(c, rich)
+		if c.Choose("fields_the_library_does_not_surface_are_populated", 2) == 1 {
+			addUnsurfaced(g.msg)
+			c.Witness("unsurfaced_fields_populated")
+		}
 		b := marshalFeed(g.msg)
 		in := append([]byte(nil), b...)
 		c.Input(hash64(string(b)+g.tz.name), len(g.msg.Entity) >= 2, func() string { return "timezone=" + g.tz.name + "\n" + feedText(g.msg) })
@@ -424,6 +433,71 @@ func c02Sizes(c *Ctx) {
 
 func cp32(v int32) *int32 { return &v }
 
+// enumValues lists every value of a wire enum, the given one first, the others ascending.
+func enumValues(names map[int32]string, first int32) []int32 {
+	out := []int32{first}
+	var rest []int32
+	for v := range names {
+		if v != first {
+			rest = append(rest, v)
+		}
+	}
+	sort.Slice(rest, func(i, j int) bool { return rest[i] < rest[j] })
+	return append(out, rest...)
+}
+
+// addUnsurfaced populates the wire fields the library does not surface (as of the pinned
+// commit): their presence must not change anything that is surfaced. Entities of kinds the
+// library does not read (shape, stop, trip_modifications) are appended as well.
+func addUnsurfaced(m *gtfsrt.FeedMessage) {
+	m.Header.Incrementality = gtfsrt.FeedHeader_DIFFERENTIAL.Enum()
+	proto.SetExtension(m.Header, gtfsrt.E_NyctFeedHeader, &gtfsrt.NyctFeedHeader{NyctSubwayVersion: sp("1.0"),
+		TripReplacementPeriod: []*gtfsrt.TripReplacementPeriod{{RouteId: sp("R1"), ReplacementPeriod: &gtfsrt.TimeRange{End: u64p(1700001800)}}}})
+	tr := func(s string) *gtfsrt.TranslatedString {
+		return &gtfsrt.TranslatedString{Translation: []*gtfsrt.TranslatedString_Translation{{Text: sp(s), Language: sp("en")}}}
+	}
+	for _, e := range m.Entity {
+		if tu := e.TripUpdate; tu != nil {
+			tu.Timestamp = u64p(1700000555)
+			tu.Delay = cp32(-42)
+			tu.TripProperties = &gtfsrt.TripUpdate_TripProperties{TripId: sp("replacement-trip"), StartDate: sp("20240305"), StartTime: sp("11:22:33"), ShapeId: sp("SHX")}
+			if tu.Trip != nil {
+				tu.Trip.ModifiedTrip = &gtfsrt.TripDescriptor_ModifiedTripSelector{ModificationsId: sp("mod-1"), AffectedTripId: sp("affected-1")}
+			}
+			if tu.Vehicle != nil {
+				tu.Vehicle.WheelchairAccessible = gtfsrt.VehicleDescriptor_WHEELCHAIR_ACCESSIBLE.Enum()
+			}
+			for _, u := range tu.StopTimeUpdate {
+				u.DepartureOccupancyStatus = gtfsrt.VehiclePosition_STANDING_ROOM_ONLY.Enum()
+				u.StopTimeProperties = &gtfsrt.TripUpdate_StopTimeUpdate_StopTimeProperties{AssignedStopId: sp("assigned-elsewhere")}
+			}
+		}
+		if vp := e.Vehicle; vp != nil {
+			vp.MultiCarriageDetails = []*gtfsrt.VehiclePosition_CarriageDetails{{Id: sp("car1"), Label: sp("A"), OccupancyStatus: gtfsrt.VehiclePosition_FULL.Enum(), OccupancyPercentage: cp32(80), CarriageSequence: u32p(1)},
+				{Id: sp("car2"), OccupancyStatus: gtfsrt.VehiclePosition_EMPTY.Enum(), CarriageSequence: u32p(2)}}
+			if vp.Vehicle != nil {
+				vp.Vehicle.WheelchairAccessible = gtfsrt.VehicleDescriptor_WHEELCHAIR_INACCESSIBLE.Enum()
+			}
+		}
+		if a := e.Alert; a != nil {
+			a.TtsHeaderText, a.TtsDescriptionText = tr("tts header"), tr("tts description")
+			a.SeverityLevel = gtfsrt.Alert_SEVERE.Enum()
+			a.CauseDetail, a.EffectDetail = tr("cause detail"), tr("effect detail")
+			a.Image = &gtfsrt.TranslatedImage{LocalizedImage: []*gtfsrt.TranslatedImage_LocalizedImage{{Url: sp("http://example.com/i.png"), MediaType: sp("image/png"), Language: sp("en")}}}
+			a.ImageAlternativeText = tr("alt text")
+		}
+	}
+	m.Entity = append(m.Entity,
+		&gtfsrt.FeedEntity{Id: sp("shape-entity"), Shape: &gtfsrt.Shape{ShapeId: sp("SHX"), EncodedPolyline: sp("_p~iF~ps|U_ulLnnqC")}},
+		&gtfsrt.FeedEntity{Id: sp("stop-entity"), Stop: &gtfsrt.Stop{StopId: sp("new-stop"), StopName: tr("New stop"), StopLat: f32p(40.1), StopLon: f32p(-73.9), WheelchairBoarding: gtfsrt.Stop_AVAILABLE.Enum()}},
+		&gtfsrt.FeedEntity{Id: sp("mods-entity"), TripModifications: &gtfsrt.TripModifications{SelectedTrips: []*gtfsrt.TripModifications_SelectedTrips{{TripIds: []string{"T1", "T2"}, ShapeId: sp("SHX")}},
+			StartTimes: []string{"10:00:00"}, ServiceDates: []string{"20240305"},
+			Modifications: []*gtfsrt.TripModifications_Modification{{StartStopSelector: &gtfsrt.StopSelector{StopId: sp("S1")}, EndStopSelector: &gtfsrt.StopSelector{StopSequence: u32p(4)},
+				PropagatedModificationDelay: cp32(120), ReplacementStops: []*gtfsrt.ReplacementStop{{StopId: sp("new-stop"), TravelTimeToStop: cp32(60)}}, ServiceAlertId: sp("al0"), LastModifiedTime: u64p(1700000000)}}}})
+}
+
+func f32p(v float32) *float32 { return &v }
+
 // c02Signature names the first differing line kind (Trip / STU / Vehicle / Alert / CreatedAt).
 func c02Signature(want, got string) string {
 	return "transcription:" + firstDiffKind(want, got)
@@ -434,7 +508,7 @@ func init() {
 		ID:    "C02",
 		Level: "model_checking",
 		Rule: "conflict-free messages from 2 trip + 2 vehicle descriptors in 6 entity slots (TU T1, VP V1, TU T2, VP V2, alert, id-less VP), 0-3 or 7 stop time updates, every optional wire field present/absent with boundary values (timestamps 0/1/2^31/DST-gap/2100, delays incl. int32 extremes, all enum values used by the library), x Timezone option {nil, UTC, +05:30, America/New_York, Europe/London, and two fixed zones that share the name EST but not the offset}, x 3 entity orders; within k deviations (quick 2, thorough 3) of a sparse and a rich base; " +
-			"plus messages of 1..1025 trips x 0..65 stop time updates, as many vehicles, and alerts with 1..66 selectors / periods / translations, under every zone option; " +
+			"every value of the surfaced wire enums; optionally every wire field the library does not surface populated (tts texts, severity, images, trip properties, modified trip, carriage details, wheelchair accessibility, departure occupancy, incrementality, NYCT header) and entities of unread kinds (shape, stop, trip_modifications) appended - nothing surfaced may change; plus messages of 1..1025 trips x 0..65 stop time updates, as many vehicles, and alerts with 1..66 selectors / periods / translations, under every zone option; " +
 			"non-trivial = distinct (message bytes, zone) with >= 2 entities; oracle = reference interpretation written from the statement",
 		Assumptions: []string{"protobuf-go Marshal/Unmarshal is trusted", "messages outside the quantifier (coinciding pool entries, empty vehicle descriptor inside a trip update) are executed for crash freedom only", "the harness embeds time/tzdata"},
 		Scenarios: func(tier string) []*Scenario {
